@@ -69,7 +69,8 @@ Step ==
          [] Line.op = "relead" -> /\ cfg' = [cfg EXCEPT !.leaders = Line.leaders]
                                   /\ UNCHANGED <<reg, clog, voted, tsigned, votesFor, tsigners, offered, xlog, digests, outcomes, healInfo>>
          [] Line.op = "heal" ->
-              /\ healInfo' = [on |-> TRUE, members |-> ToSet(Line.members), view |-> Line.view, len |-> [r \in Nodes |-> Len(clog[r])], ff |-> Line.faultfree]
+              /\ healInfo' = [on |-> TRUE, members |-> ToSet(Line.members), view |-> Line.view, len |-> [r \in Nodes |-> Len(clog[r])], ff |-> Line.faultfree,
+                               fired |-> [r \in Nodes |-> 0]]
               /\ cfg' = [cfg EXCEPT !.leaders = Line.leaders]
               /\ UNCHANGED <<reg, clog, voted, tsigned, votesFor, tsigners, offered, xlog, digests, outcomes>>
          [] Line.op = "step" ->
@@ -85,7 +86,8 @@ Step ==
                  /\ xlog' = [xlog EXCEPT ![n] = DedupAppend(@, Line.exec)]
                  /\ digests' = Ext(digests, {Line.count}, Line.digest)
                  /\ outcomes' = [outcomes EXCEPT ![n] = @ \cup {<<Line.outcomes[i][1], Line.outcomes[i][2]>> : i \in 1..Len(Line.outcomes)}]
-                 /\ UNCHANGED <<cfg, healInfo>>
+                 /\ healInfo' = IF healInfo.on /\ Line.kind = "timeout" THEN [healInfo EXCEPT !.fired[n] = @ + 1] ELSE healInfo
+                 /\ UNCHANGED cfg
          [] OTHER -> UNCHANGED <<cfg, reg, clog, voted, tsigned, votesFor, tsigners, offered, xlog, digests, outcomes, healInfo>>
 Spec == Init /\ [][Step]_vars
 IsStep == l < Len(Trace) /\ Line.op = "step"
@@ -167,9 +169,12 @@ P_C06 == [][C06Step]_vars
 \* ================= C05 ============================================================================
 \* once the live quorum has run B views beyond the heal, every member has committed something new
 Bound == 3 * (cfg.chain + 1)
+\* "within a bounded number of views": a view lasts at most one timer period, so a member is overdue when it is Bound views
+\* beyond the heal, or when its view timer has expired 2 * Bound times since the heal (it may be stuck in one view: that is a
+\* stall, not an excuse)
 C05Step == (IsStep /\ healInfo.on) =>
-    LET mx == Max({Line.post.view} \cup {0}) IN
-    (Line.node \in healInfo.members /\ Line.post.view >= healInfo.view + Bound) => Len(clog'[Line.node]) > healInfo.len[Line.node]
+    ((Line.node \in healInfo.members /\ (Line.post.view >= healInfo.view + Bound \/ healInfo'.fired[Line.node] >= 2 * Bound))
+        => Len(clog'[Line.node]) > healInfo.len[Line.node])
 \* fault-free synchronous run: every view adds a certified block on top of the previous view's block, nobody times
 \* out, and when a replica handles the proposal of view v its committed block is the one of view v - ChainLength
 FaultFreeStep == (IsStep /\ healInfo.on /\ healInfo.ff) =>
